@@ -59,6 +59,43 @@ def bounded(tier, seed):
                 if len(violations) < 5:
                     violations.append(dict(contract="overlay view == reference model; fall-back untouched", function="OverlayStore",
                                            roles="%s over %s" % (ko, kf), fallback=[repr(o) for o in pre], **v))
+    # removal, then a metadata-only write to the removed key (re-creation without bytes): the removed bytes must stay masked
+    n = 0
+    for ko, kf in (("mem", "mem"), ("file", "mem"), ("mem", "file"), ("file", "file")):
+        for pre in FALLBACKS[1:]:
+            for key in [op[1] for op in pre if op[0] == "store"]:
+                for how in ("remove", "removedir-parent"):
+                    if how == "removedir-parent" and "/" not in key:
+                        continue
+                    ov, cleanup, extra = make_factory(ko, kf, pre)()
+                    try:
+                        old = ov.get_bytes(key)
+                        if how == "remove":
+                            ov.remove(key)
+                        else:
+                            ov.removedir(key.rsplit("/", 1)[0], recursive=True)
+                        ov.store_metadata(key, {"custom": "again"})
+                        n += 1
+                        try:
+                            got = ov.get_bytes(key)
+                        except Exception:
+                            got = None
+                        problem = None
+                        if got is not None and got == old:
+                            problem = "get_bytes returns the removed fall-back bytes again"
+                        elif (key in list(ov.keys())) != bool(ov.contains(key)):
+                            problem = "keys() and contains() disagree about the key"
+                        elif extra(ov):
+                            problem = extra(ov)
+                        if problem and len(violations) < 5:
+                            violations.append(dict(contract="overlay view == reference model; fall-back untouched", function="OverlayStore.store_metadata",
+                                                   roles="%s over %s" % (ko, kf), fallback=[repr(o) for o in pre],
+                                                   history=["%s %s" % (how, key), "store_metadata %s" % key], problem=problem))
+                    finally:
+                        cleanup()
+    total_eval += n
+    standins.append(dict(name="a metadata-only write to a removed key keeps the removed bytes masked", labelled="bounded",
+                         bound="every stored key of 2 fall-backs x remove / recursive removedir of its parent x 4 role assignments", cases=n, exhaustive=True))
     return dict(evaluations=total_eval, distinct_nontrivial=total_states,
                 rule="depth-first enumeration of every well-formed history (store, metadata update, remove, makedir, removedir empty/recursive) "
                      "through the overlay over a 6-key universe with 3 pre-populated fall-backs, memory/directory stores in either role; after every "
